@@ -3,7 +3,7 @@ independent oracle (reference interpreter on candidate inputs) whether a clean P
 import random
 
 from harness import l3
-from harness.c03_lib import (M, boundary_candidates, clause_feasibility, compile_contract, expected_bounds, parse_bounds,
+from harness.c03_lib import (DEFAULT_LENS, M, bounds_of, boundary_candidates, clause_feasibility, compile_contract, expected_bounds, parse_bounds,
                              parse_codes, sig_of, z3_candidates)
 
 
@@ -39,17 +39,19 @@ def l3_worker(task):
         sig = sig_of(t)
         printed = parse_bounds((r.tests.get(sig) or {}).get("bounds"))
         bounds = {}
+        pn = t.get("pnames") or [f"a{i}" for i in range(len(t["params"]))]
         for i, ty in enumerate(t["params"]):
             if l3.is_dynamic(ty):
-                bounds[i] = printed.get(f"a{i}", expected_bounds(t)[i])
+                fallback = bounds_of(task.get("lens") or DEFAULT_LENS, i, ty) if not t.get("pnames") else bounds_of({**(task.get("lens") or DEFAULT_LENS), "by_name": {}}, i, ty)
+                bounds[i] = printed.get(pn[i], fallback) if pn[i] and pn.count(pn[i]) == 1 else fallback
         cl = []
         try:
-            cl += z3_candidates(t, codes, bounds, storage)
+            cl += z3_candidates(t, codes, bounds, storage, timeout_ms=task.get("z3_ms", 2000))
         except Exception:  # noqa: BLE001  (search aid only)
             pass
         nz = len(cl)
         try:
-            feas = clause_feasibility(t, bounds, storage)
+            feas = clause_feasibility(t, bounds, storage, timeout_ms=task.get("feas_ms", 3000))
         except Exception:  # noqa: BLE001
             feas = None
         cl += boundary_candidates(t, bounds, storage, rng, limit=task.get("limit", 120))
